@@ -88,10 +88,7 @@ Proof.
 Qed.
 
 (* ---- the same, phrased on observable outcomes (what the check evaluates) ---- *)
-From FP Require Import Out Run.
-
-Lemma dec_eqb_refl d : dec_eqb d d = true.
-Proof. unfold dec_eqb. rewrite !Z.eqb_refl. reflexivity. Qed.
+From FP Require Import Out Run OutFacts.
 
 Lemma round_acc pf m d n :
   wf d = true -> -128 <= n <= 127 ->
